@@ -244,6 +244,96 @@ def run_case(job):
     return out
 
 
+def translator_validation(rp, seed, n):
+    """concrete attribute values: the interpreter (std models + stubs over the entity table) must agree with Attr::value"""
+    import random
+    rng = random.Random(seed)
+    alpha = [" ", "\t", "\n", "a", "b", "\u00e9", "x", "  ", "\u00a0"]
+    done = 0
+    fns = None
+    for _ in range(n):
+        nents = rng.randrange(0, 3)
+        ents = {}
+        for e in range(1, nents + 1):
+            body = []
+            for _k in range(rng.randrange(0, 3)):
+                c = rng.randrange(3)
+                if c == 0:
+                    body.append(("text", "".join(rng.choice(alpha) for _ in range(rng.randrange(1, 3)))))
+                elif c == 1:
+                    body.append(("char", rng.choice(["9", "A", "41", "20"])))
+                elif e < nents:
+                    body.append(("ent", str(e + 1)))
+            ents[str(e)] = body
+        pieces = []
+        for _k in range(rng.randrange(0, 4)):
+            c = rng.randrange(3)
+            if c == 0:
+                pieces.append(("text", "".join(rng.choice(alpha) for _ in range(rng.randrange(1, 3)))))
+            elif c == 1:
+                pieces.append(("char", rng.choice(["9", "A", "41", "20", "3042"])))
+            elif nents:
+                pieces.append(("ent", str(rng.randrange(1, nents + 1))))
+        decl = rng.choice(["none", "cdata", "tokenized"])
+
+        def lit(parts):
+            return "".join(t if k == "text" else "&#x%s;" % t if k == "char" else "&e%s;" % t for k, t in parts)
+        dtd = "".join("<!ENTITY e%s \"%s\">" % (k, lit(v)) for k, v in ents.items())
+        if decl != "none":
+            dtd += "<!ATTLIST r a %s #IMPLIED>" % ("CDATA" if decl == "cdata" else "NMTOKENS")
+        doc = "<!DOCTYPE r [%s]><r a=\"%s\"/>" % (dtd, lit(pieces))
+        I = K.new_interp("debug")
+        table = {}
+        for k, v in ents.items():
+            vals = SVec()
+            for kind, t in v:
+                if kind == "text":
+                    vals.append(K.mk_enum("XmlEntityValue", K.INFO, "Text", kernel.from_pystr(t)))
+                elif kind == "char":
+                    vals.append(K.mk_enum("XmlEntityValue", K.INFO, "Character", kernel.from_pystr(t), 16))
+                else:
+                    vals.append(K.mk_enum("XmlEntityValue", K.INFO, "Entity", kernel.from_pystr("e" + t)))
+            table[k] = vals
+
+        def entity_lookup(I, ctx, name):
+            nm = kernel.concrete_str(name)
+            if nm and nm[1:] in table:
+                return Ok(K.mk_obj("EntityStub", None, values=table[nm[1:]]))
+            return Err(K.mk_enum("Error", K.INFO, "NotFoundReference", name))
+        I.mstubs = {("TextPiece", "as_text"): lambda I, r: Some(r), ("CharPiece", "as_char_reference"): lambda I, r: Some(r),
+                    ("CharPiece", "character_code"): lambda I, r: r.fields["code"], ("EntPiece", "as_unexpanded"): lambda I, r: Some(r),
+                    ("EntPiece", "name"): lambda I, r: r.fields["name"], ("Context", "entity"): entity_lookup,
+                    ("EntityStub", "values"): lambda I, r: Some(r.fields["values"]),
+                    ("XmlAttribute", "declaration_type"): lambda I, r: r.fields["__decl__"], ("XmlAttribute", "context"): lambda I, r: r.fields["context"]}
+        fn = I.dump.methods.get((K.INFO, "XmlAttribute", "normalized_value"))[0]
+
+        def thunk(I):
+            values = SVec()
+            for kind, t in pieces:
+                if kind == "text":
+                    values.append(K.mk_enum("XmlAttributeValue", K.INFO, "Text", K.mk_obj("TextPiece", None, text=kernel.from_pystr(t))))
+                elif kind == "char":
+                    values.append(K.mk_enum("XmlAttributeValue", K.INFO, "Char", K.mk_obj("CharPiece", None, code=kernel.from_pystr(chr(int(t, 16))))))
+                else:
+                    values.append(K.mk_enum("XmlAttributeValue", K.INFO, "Entity", K.mk_obj("EntPiece", None, name=kernel.from_pystr("e" + t))))
+            d = NONE if decl == "none" else Some(K.mk_enum("XmlDeclarationAttType", K.INFO, "CData" if decl == "cdata" else "NmTokens"))
+            attr = K.mk_obj("XmlAttribute", K.INFO, values=values, context=K.mk_obj("Context", None, table=table), __decl__=d)
+            return I.call_fn(K.INFO, fn, [attr])
+        paths = I.explore(thunk)
+        if len(paths) != 1 or paths[0]["kind"] != "ret":
+            raise common.Inconclusive("concrete normalisation run: %s" % str(paths[:1])[:200])
+        r = paths[0]["value"]
+        pred = kernel.concrete_str(r.fields[0]) if r.variant == "Ok" else None
+        rr = rp.run({"op": "attr_value", "input": doc})
+        if "doc_err" in rr:
+            continue
+        real = rr.get("value") if rr.get("ok") else None
+        if pred != real:
+            raise common.Inconclusive("model mismatch on %s: interpreter %r, real %s" % (doc, pred, rr))
+        done += 1
+    return done
+
+
 def esc_text(s, quote):
     o = []
     for ch in s:
@@ -358,6 +448,12 @@ def main():
     rep.assumptions += ["pieces, Context::entity and declaration_type are stubs over a symbolic table; a character reference inside an entity value is appended unchanged (either reading accepted by the property)",
                         "std models of engine/sx/kstd.py (str::replace, split(' '), filter, join)"]
     known_open, _ = common.known_findings("C11")
+    try:
+        rep.tv_cases = translator_validation(rp, args.seed, 80 if args.tier == "quick" else 400)
+        rep.extra["translator_validation"] = "%d concrete documents: S-kernel + stubs == Attr::value" % rep.tv_cases
+    except (common.Inconclusive, kernel.Unsupported) as e:
+        rep.inconclusive.append(str(e))
+        return rep.finish()
     jobs = [(p, e, d, timeout_s) for p, e, d in cases(args.tier)]
     with mp.Pool(args.jobs) as pool:
         results = pool.map(run_case, jobs, chunksize=4)
